@@ -129,6 +129,29 @@ theorem C15_gen_collapse_edgeToMidpoint (cfg : Cfg Val) (n b0l l b1l b0r r b1r :
     Prog.bind_eq, Prog.pure_eq, Prog.bind_assoc, Prog.ret_bind, colIteBind, Nat.reduceEqDiff, if_false, if_true, Nat.reduceSub,
     remBindUnit, Prog.bind_ret] <;> rfl
 
+/-- the model's `if let Some(v) = o { k v }` as `remOnSome` -/
+theorem col_matchSome (o : Option Val) (k : Val → P Val Unit) :
+    (match o with
+     | some v => k v
+     | none => pure ()) = remOnSome o k := by
+  cases o <;> rfl
+
+/-- **tie of `collapse_edge_to_base`** (the three reads of the base vertex before any edit, the 2-unsew of `l`, the half-cell
+    helper on `(b1r, r, b0r)` then on `(b0l, l, b1l)`, the identifier selection, the two conditional writes at `new_vid`) -/
+theorem C15_gen_collapse_edgeToBase (cfg : Cfg Val) (n b0l l b1l b0r r b1r : Nat) :
+    colNat [b0l, l, b1l, b0r, r, b1r] Gen.Collapse.collapseEdgeToBaseResult
+      (colInterp cfg n (colHalf cfg n) [b0l, l, b1l, b0r, r, b1r] 32 [] Gen.Collapse.collapseEdgeToBase) =
+      collapseEdgeToBase cfg n b0l l b1l b0r r b1r := by
+  simp only [colNat, Gen.Collapse.collapseEdgeToBase, Gen.Collapse.collapseEdgeToBaseResult, colInterp, colN, remN, remO, remX,
+    collapseEdgeToBase, C15_gen_collapse_halfBase, List.map,
+    List.getD_cons_zero, List.getD_cons_succ, List.nil_append, List.cons_append, List.take, List.drop, rem_disp_unsew2,
+    Prog.bind_eq, Prog.pure_eq, Prog.bind_assoc, Prog.ret_bind, Nat.reduceEqDiff, if_false, if_true, Nat.reduceSub,
+    remBindUnit, Prog.bind_ret, remWriteVtx_val, Nat.add_zero]
+  refine congrArg (Prog.bind _) (funext fun lVid => congrArg (Prog.bind _) (funext fun tv => congrArg (Prog.bind _)
+    (funext fun ta => ?_)))
+  cases tv <;> cases ta <;>
+    simp only [remOnSome, colIteBind, collapsedVid, Prog.bind_assoc, Prog.ret_bind, Prog.bind_ret, remBindUnit] <;> rfl
+
 /-- the anchors numbered in the order read -/
 def colVA (la ra : VertexAnchor) : Nat → Option VertexAnchor
   | 0 => some la
@@ -214,6 +237,75 @@ theorem C15_gen_collapse_isCollapsible (cfg : Cfg Val) (n e : Nat) : colGuard cf
     Gen.Collapse.guardPre, Gen.Collapse.guardReads, colChoiceOf, colInterp, colN, remN, List.getD_cons_zero, List.getD_cons_succ,
     List.nil_append, List.cons_append, Prog.bind_eq, Prog.pure_eq, Prog.bind_assoc, Prog.ret_bind, Nat.reduceEqDiff, if_false,
     Nat.reduceSub, Nat.add_zero, List.getD_eq_getElem?_getD, List.getElem?_cons_zero, List.getElem?_cons_succ, Option.getD_some] <;> rfl
+
+/-- the translated edge-level helper number `f` (0 = `collapse_edge_to_midpoint`, 1 = `collapse_edge_to_base`) on the
+    two triples `ps` -/
+def colEdge (cfg : Cfg Val) (n : Nat) : Nat → List Nat → P Val Nat
+  | 0, ps => colNat ps Gen.Collapse.collapseEdgeToMidpointResult
+      (colInterp cfg n (colHalf cfg n) ps 32 [] Gen.Collapse.collapseEdgeToMidpoint)
+  | 1, ps => colNat ps Gen.Collapse.collapseEdgeToBaseResult
+      (colInterp cfg n (colHalf cfg n) ps 32 [] Gen.Collapse.collapseEdgeToBase)
+  | _, _ => Prog.panic
+
+/-- the meaning of the translated top level `collapse_edge` (header of `Gen.Collapse.collapseEdge`); `guard` =
+    `is_collapsible`, `edge f` = the edge-level helpers, `orient` = `is_orbit_orientation_consistent`; returns the
+    variables bound -/
+def colTop (guard : Nat → P Val Collapsible) (edge : Nat → List Nat → P Val Nat) (orient : Nat → P Val Bool)
+    (errs : List String) (ps : List Nat) : Nat → List (RemVal Val) → List (Nat × List Nat) → P Val (List (RemVal Val))
+  | 0, _, _ => Prog.panic
+  | _ + 1, env, [] => pure env
+  | f + 1, env, (0, [a, b, v]) :: rest =>
+      if colN ps env a = colN ps env b then abort (remErr errs v) else
+      colTop guard edge orient errs ps f env rest
+  | f + 1, env, (1, [i, a]) :: rest => do
+      let v ← rB i (colN ps env a)
+      colTop guard edge orient errs ps f (env ++ [.n v]) rest
+  | f + 1, env, (24, [i, a, b, v]) :: rest => do
+      let x ← rB i (colN ps env a)
+      if x ≠ colN ps env b then abort (remErr errs v) else
+      colTop guard edge orient errs ps f env rest
+  | f + 1, env, (25, [a, c, i, b, d, v]) :: rest => do
+      -- `&&` short-circuits: the β is only read when the first comparison is true
+      let bad ← (if colN ps env a ≠ colN ps env c then do
+        let y ← rB i (colN ps env b)
+        pure (decide (y ≠ colN ps env d)) else pure false : P Val Bool)
+      if bad then abort (remErr errs v) else
+      colTop guard edge orient errs ps f env rest
+  | f + 1, env, (26, [x, f0, a1, a2, a3, a4, a5, a6, f1, b1, b2, b3, b4, b5, b6, f2, c1, c2, c3, c4, c5, c6]) :: rest => do
+      let c ← guard (colN ps env x)
+      let v ← (match c with
+        | .average => edge f0 [colN ps env a1, colN ps env a2, colN ps env a3, colN ps env a4, colN ps env a5, colN ps env a6]
+        | .left => edge f1 [colN ps env b1, colN ps env b2, colN ps env b3, colN ps env b4, colN ps env b5, colN ps env b6]
+        | .right => edge f2 [colN ps env c1, colN ps env c2, colN ps env c3, colN ps env c4, colN ps env c5, colN ps env c6])
+      colTop guard edge orient errs ps f (env ++ [.n v]) rest
+  | f + 1, env, (27, [a, v]) :: rest => do
+      let ok ← orient (colN ps env a)
+      if !ok then abort (remErr errs v) else
+      colTop guard edge orient errs ps f env rest
+  | _, _, _ => Prog.panic
+
+/-- the translated `collapse_edge(t, map, e)`, every callee the translated one except the orientation check `orient` -/
+def colCollapseEdge (cfg : Cfg Val) (n : Nat) (orient : Nat → P Val Bool) (e : Nat) : P Val Nat :=
+  colNat [e] Gen.Collapse.collapseEdgeResult
+    (colTop (colGuard cfg n) (colEdge cfg n) orient Gen.Collapse.collapseErrors [e] 32 [] Gen.Collapse.collapseEdge)
+
+theorem col_errs : remErr Gen.Collapse.collapseErrors 3 = errNullEdge ∧ remErr Gen.Collapse.collapseErrors 4 = errBadTopology ∧
+    remErr Gen.Collapse.collapseErrors 2 = errInvertedOrientation := ⟨rfl, rfl, rfl⟩
+
+/-- **tie of the top level `collapse_edge`**: the NullEdge guard, the five β reads in order, the two BadTopology guards (the
+    second with its short-circuit `&&`), the match on the answer of the translated `is_collapsible` into the translated
+    edge-level helpers with their two triples, the InvertedOrientation abort, the identifier returned -/
+theorem C15_gen_collapse_edge (cfg : Cfg Val) (n e : Nat) :
+    colCollapseEdge cfg n (isOrbitOrientationConsistent n) e = collapseEdge cfg n e := by
+  simp only [colCollapseEdge, Gen.Collapse.collapseEdge, colTop, colEdge, colN, remN,
+    C15_gen_collapse_isCollapsible, C15_gen_collapse_edgeToMidpoint, C15_gen_collapse_edgeToBase,
+    col_errs.1, col_errs.2.1, col_errs.2.2,
+    List.getD_cons_zero, List.getD_cons_succ, List.nil_append, List.cons_append, Nat.reduceEqDiff, if_false, if_true, Nat.reduceSub]
+  simp only [colNat, Gen.Collapse.collapseEdgeResult, colN, remN, collapseEdge, abort, Prog.abort_bind,
+    List.getD_cons_zero, List.getD_cons_succ, List.nil_append, List.cons_append,
+    Prog.bind_eq, Prog.pure_eq, Prog.bind_assoc, Prog.ret_bind, colIteBind, Nat.reduceEqDiff, if_false, if_true, Nat.reduceSub,
+    Prog.bind_ret]
+  rfl
 
 /-- **C15 (b) stated on the translated decision**: the `unreachable!()` of the translated `is_collapsible` is unreachable -/
 theorem C15_gen_collapse_choice_total (la ra : VertexAnchor) (ea : EdgeAnchor) :
